@@ -92,9 +92,28 @@ def returns_fresh(world, f, depth=0):
     if nested or not rets or any(r.value is None for r in rets):
         return False
 
+    params = {a.arg for a in f.node.args.posonlyargs + f.node.args.args + f.node.args.kwonlyargs}
+    assigned = {}
+    for n in ast.walk(f.node):
+        for t, v in (_assign_pairs(n) if isinstance(n, ast.stmt) else ()):
+            if isinstance(t, ast.Name):
+                assigned.setdefault(t.id, []).append(v)
+
     def fresh(e, d=0):
         if isinstance(e, (ast.List, ast.Dict, ast.Set, ast.ListComp, ast.DictComp, ast.SetComp)):
             return True
+        if isinstance(e, ast.Name) and d < 4 and e.id not in params and assigned.get(e.id) \
+                and not any(isinstance(g, ast.Global) and e.id in g.names for g in ast.walk(f.node)):
+            for u in ast.walk(f.node):              # ... and not handed to anything that could keep it
+                if isinstance(u, ast.Name) and u.id == e.id and isinstance(u.ctx, ast.Load):
+                    up = getattr(u, "_parent", None)
+                    if isinstance(up, (ast.List, ast.Tuple, ast.Set, ast.Dict, ast.Starred, ast.keyword, ast.Yield)):
+                        return False
+                    if isinstance(up, ast.Call) and u in up.args and isinstance(up.func, ast.Attribute):
+                        return False
+                    if isinstance(up, (ast.Assign, ast.AnnAssign)) and up.value is u:
+                        return False
+            return all(v is not None and fresh(v, d + 1) for v in assigned[e.id])     # a local bound only to fresh objects
         if isinstance(e, ast.BinOp) and isinstance(e.op, ast.Add):
             return fresh(e.left, d) or fresh(e.right, d)
         if isinstance(e, ast.Call) and isinstance(e.func, ast.Name):
@@ -302,6 +321,57 @@ class Analyzer(object):
             return False, "self.%s is never assigned by the instance's class" % attr
         return True, ""
 
+    def param_owned_by_every_caller(self, fi, pname):
+        """Ownership transfer: the module-level function `fi` may mutate its parameter when it is
+        called only by name from inside the package, it is never used as a value, and at every call
+        site the argument is an object the caller allocated itself (a fresh expression or a local
+        bound only to fresh expressions) that the caller does not store anywhere.  Then the object is
+        reachable from one activation only and its mutation is not observable by any other session."""
+        if fi.owner is not None or isinstance(fi.node, ast.Lambda) or isinstance(getattr(fi.node, "_parent", None), (ast.FunctionDef, ast.ClassDef)):
+            return False, ""
+        a = fi.node.args
+        if a.vararg or a.kwarg:
+            return False, ""
+        pos = [x.arg for x in a.posonlyargs + a.args]
+        sites = 0
+        for (mod, qual, node) in self.world.functions():
+            cfi = None
+            for n in ast.walk(node):
+                if not (isinstance(n, ast.Name) and n.id == fi.node.name and isinstance(n.ctx, ast.Load)):
+                    continue
+                v = self.world.static_lookup(mod, n.id)
+                if not (isinstance(v, FuncV) and v.node is fi.node):
+                    continue
+                call = getattr(n, "_parent", None)
+                if not (isinstance(call, ast.Call) and call.func is n):
+                    return False, "; the function is also used as a value in %s.%s" % (mod.name, qual)
+                if any(isinstance(x, ast.Starred) for x in call.args) or any(k.arg is None for k in call.keywords):
+                    return False, "; called with * / ** arguments in %s.%s" % (mod.name, qual)
+                arg = None
+                if pname in pos and pos.index(pname) < len(call.args):
+                    arg = call.args[pos.index(pname)]
+                for k in call.keywords:
+                    if k.arg == pname:
+                        arg = k.value
+                if arg is None:
+                    return False, "; %s.%s passes no explicit argument for it" % (mod.name, qual)
+                if cfi is None:
+                    cfi = FuncInfo(self.world, mod, qual, node, self.session_classes)
+                if not cfi.is_fresh_expr(arg):
+                    return False, "; %s.%s passes an object it did not allocate" % (mod.name, qual)
+                if isinstance(arg, ast.Name):
+                    # the caller's local must not be stored into anything that outlives the call
+                    for u in ast.walk(node):
+                        if isinstance(u, ast.Name) and u.id == arg.id and isinstance(u.ctx, ast.Load):
+                            up = getattr(u, "_parent", None)
+                            if isinstance(up, (ast.Assign, ast.AnnAssign)) and up.value is u and not all(isinstance(t, ast.Name) for t in getattr(up, "targets", [up.target] if hasattr(up, "target") else [])):
+                                return False, "; %s.%s also stores that object" % (mod.name, qual)
+                sites += 1
+        # module-level code calling it (import time) is not a session
+        if sites == 0:
+            return False, ""
+        return True, ""
+
     def judge_base(self, fi, base):
         """-> (ok, why).  `base` is the expression denoting the object being written."""
         if isinstance(base, ast.Attribute) and base.attr == "__dict__":
@@ -320,7 +390,10 @@ class Analyzer(object):
             if nm in fi.globals_decl:
                 return False, ("W2", "write through global '%s'" % nm)
             if nm in fi.params:
-                return False, ("W1", "mutation of parameter '%s' (an object owned by the caller)" % nm)
+                ok, why = self.param_owned_by_every_caller(fi, nm)
+                if ok:
+                    return True, "fresh"     # every caller hands over an object it has just allocated and shares with nobody
+                return False, ("W1", "mutation of parameter '%s' (an object owned by the caller%s)" % (nm, why))
             if nm in fi.locals_assigned or nm in fi.local_names:
                 if fi.is_fresh_name(nm):
                     return True, "fresh"
@@ -524,6 +597,8 @@ class Analyzer(object):
                 v = self.world.static_lookup(m, d[0])
                 where = fi if fi is not None else m
                 if v is None:
+                    if len(d) == 1 and d[0] == "memoryview" and self._readonly_view(n, fi):
+                        continue
                     if len(d) == 1 and hasattr(builtins, d[0]) and d[0] in BUILTIN_DENY:
                         self.stats["ext_refs"] += 1
                         self.report("W5", where, n, "builtin '%s' is an unvetted effect/ambient-state source" % d[0])
@@ -542,6 +617,31 @@ class Analyzer(object):
                     continue
                 self.report("W5", where, n, "reference to external name '%s' outside the vetted pure allowlist "
                             "(ambient state / unvetted effect)" % name)
+
+    @staticmethod
+    def _readonly_view(n, fi):
+        """memoryview(x) used only to *inspect* a buffer: called directly, bound to one local (or used
+        in place), and that local only read through attributes / .tobytes() / len() / bytes() - never
+        subscripted for a store, passed on, returned or stored.  Such a view aliases nothing observable."""
+        call = getattr(n, "_parent", None)
+        if not (isinstance(call, ast.Call) and call.func is n and len(call.args) == 1 and not call.keywords) or fi is None:
+            return False
+        par = getattr(call, "_parent", None)
+        if isinstance(par, ast.Attribute) and isinstance(par.ctx, ast.Load):
+            return True                       # memoryview(x).nbytes / .tobytes()
+        if not (isinstance(par, ast.Assign) and len(par.targets) == 1 and isinstance(par.targets[0], ast.Name) and par.value is call):
+            return False
+        name = par.targets[0].id
+        for u in ast.walk(fi.node):
+            if isinstance(u, ast.Name) and u.id == name and u is not par.targets[0]:
+                up = getattr(u, "_parent", None)
+                if isinstance(u.ctx, ast.Load) and isinstance(up, ast.Attribute) and up.value is u and isinstance(up.ctx, ast.Load):
+                    continue
+                if isinstance(u.ctx, ast.Load) and isinstance(up, ast.Call) and isinstance(up.func, ast.Name) and up.func.id in ("len", "bytes") \
+                        and up.args == [u]:
+                    continue
+                return False
+        return True
 
     def _enclosing(self, n, funcs):
         p = getattr(n, "_parent", None)
